@@ -24,6 +24,8 @@ mod types;
 mod beh;
 #[path = "../c02/zst.rs"]
 mod zst;
+#[path = "../c02/ctor.rs"]
+mod ctor;
 
 use roto::verif_hooks::c02 as hook;
 use roto::{FileTree, NoCtx, Runtime, Val, library};
@@ -650,6 +652,11 @@ fn main() {
                 "search" => (4000, 4000),
                 _ => (2000, 1500),
             };
+            let n_ctor: u64 = match tier {
+                "thorough" => 20000,
+                "search" => 3000,
+                _ => 1000,
+            };
             let mut rep = Report::default();
             // corpus first
             beh::corpus(&mut rep);
@@ -689,6 +696,20 @@ fn main() {
                     beh::case_json(&case),
                 );
             });
+            // constructors: the real lowerer's MIR run against the value-semantics spec
+            // (`Model/ValueCtor`); class representatives first, whatever the seed
+            for (kind, total) in [("ctor-reps", ctor::n_reps()), ("ctor", n_ctor)] {
+                let sb = format!("{seed}:0");
+                run_batches(&[kind, &sb], total, 250, Duration::from_secs(240), &mut rep, |rep, idx, ended| {
+                    let pr = if kind == "ctor" { ctor::gen_prog(seed, idx) } else { ctor::rep_progs().swap_remove(idx as usize) };
+                    viol(
+                        rep,
+                        &format!("lowering a well-typed constructor script kills the process or never ends: {}", ended_str(ended)),
+                        "crash ctor",
+                        json!({"kind": "ctor", "script": ctor::source(&pr), "seed": seed, "index": idx}),
+                    );
+                });
+            }
             let mut base = 0u64;
             while base < n_beh && crashes.get() < 6 {
                 let sb = format!("{seed}:{base}");
@@ -714,6 +735,14 @@ fn main() {
             let c = beh::gen_rep_case(args[2].parse().expect("index"));
             println!("{}\n// spec: {}", c.script, c.spec.lines().next().unwrap_or(""));
         }
+        Some("show-ctor") => {
+            // print constructor representative <idx> (or `r<seed>:<idx>`, a generated one)
+            let pr = match args[2].strip_prefix('r').and_then(|x| x.split_once(':')) {
+                Some((s, i)) => ctor::gen_prog(s.parse().expect("seed"), i.parse().expect("index")),
+                None => ctor::rep_progs().swap_remove(args[2].parse().expect("index")),
+            };
+            println!("{}// {}", ctor::source(&pr), pr.sig);
+        }
         Some("zst") => {
             let mut rep = Report::default();
             zst::run(&mut rep);
@@ -734,6 +763,8 @@ fn main() {
                 "layout" => worker_layout(seed, base, from, n),
                 "beh" => beh::worker(seed, base, from, n, false),
                 "reps" => beh::worker(seed, base, from, n, true),
+                "ctor" => ctor::worker(seed, base, from, n, false),
+                "ctor-reps" => ctor::worker(seed, base, from, n, true),
                 "beh-one" => beh::replay_in_worker(&args[6]),
                 _ => std::process::exit(64),
             }
@@ -755,6 +786,7 @@ fn main() {
                     run_layout_case(v["script"].as_str().unwrap_or(""), &rt, &mut drv, &mut seen, &mut rep);
                 }
                 Some("beh") => beh::replay(&v, &mut rep),
+                Some("ctor") => ctor::replay(&v, &mut rep),
                 Some("zst") => {
                     let name = v["name"].as_str().unwrap_or("");
                     match zst::SCRIPTS.iter().position(|s| s.0 == name) {
